@@ -43,6 +43,10 @@ impl Ex for signal_hook::iterator::exfiltrator::origin::WithOrigin {
     const RAW: bool = true;
     fn decode(o: &signal_hook::low_level::siginfo::Origin) -> (i32, u64, bool) {
         use signal_hook::low_level::siginfo::{Cause, Sent};
+        if sched::QUEUE_AS_TIMER.load(std::sync::atomic::Ordering::SeqCst) {
+            // timer-style records: the kernel's layout for them names no sender
+            return (o.signal, 0, matches!(o.cause, Cause::Unknown) && o.process.is_none());
+        }
         let sent_by_us = matches!(o.cause, Cause::Sent(Sent::Queue) | Cause::Sent(Sent::TKill) | Cause::Sent(Sent::User));
         let me = o.process.map_or(false, |p| p.pid == unsafe { libc::getpid() } && p.uid == unsafe { libc::getuid() });
         (o.signal, 0, sent_by_us && me)
@@ -103,6 +107,12 @@ pub struct IP {
     pub refused_readd: Option<i32>,
     /// Mode::Poll: the readiness callback's first consultation fails with EINTR (environment deviation)
     pub callback_eintr_once: bool,
+    /// deliveries made during setup without anybody draining (400 fill the self-pipe completely)
+    pub prefill: u32,
+    /// queued deliveries are records of the timer kind (no sender in the kernel's layout)
+    pub timer_records: bool,
+    /// during setup an addition refused by panic is made (and caught): the id table is poisoned
+    pub poison_in_setup: bool,
 }
 
 fn log_yield<E: Ex>(o: &E::Output) {
@@ -396,6 +406,14 @@ where
         let mut never = [0i32; 2];
         unsafe {
             libc::pipe(never.as_mut_ptr());
+        }
+        if pp.poison_in_setup {
+            let r = std::panic::catch_unwind(std::panic::AssertUnwindSafe(|| handle.add_signal(libc::SIGKILL)));
+            assert!(r.is_err());
+        }
+        sched::QUEUE_AS_TIMER.store(pp.timer_records, std::sync::atomic::Ordering::SeqCst);
+        for _ in 0..pp.prefill {
+            sched::setup_raise(pp.initial[0]);
         }
         if let Some(x) = pp.refused_readd {
             let r = handle.add_signal(x);
@@ -696,7 +714,102 @@ fn check(log: &[Ev], p: &IP, closed_end: bool) -> Result<u64, String> {
 }
 
 fn ip(name: &'static str, prop: &'static str, mode: Mode) -> IP {
-    IP { name, prop, mode, initial: vec![S1], deliverers: vec![], adders: vec![], free_closers: 0, nest_on_k: vec![], max_nest: 1, max_rounds: 8, match_values: false, forever_one: false, second_scanner: false, adders_first: false, closer_after_rejected_add: false, refused_readd: None, callback_eintr_once: false }
+    IP { name, prop, mode, initial: vec![S1], deliverers: vec![], adders: vec![], free_closers: 0, nest_on_k: vec![], max_nest: 1, max_rounds: 8, match_values: false, forever_one: false, second_scanner: false, adders_first: false, closer_after_rejected_add: false, refused_readd: None, callback_eintr_once: false, prefill: 0, timer_records: false, poison_in_setup: false }
+}
+
+/// C09: the instance is constructed while its signals are already being delivered (from another thread and
+/// nested in the constructing thread): a delivery that its action has recorded is reported by the first wait.
+pub struct CtorS {
+    handle: Mutex<Option<Handle>>,
+}
+
+pub fn build_ctor(name: &'static str, prop: &'static str) -> Scenario<Arc<CtorS>> {
+    let setup = || {
+        fresh_registry(&[(S1, Disp::Plain), (S2, Disp::Plain)]);
+        Arc::new(CtorS { handle: Mutex::new(None) })
+    };
+    let k = ThreadSpec {
+        name: "K",
+        body: Box::new(move |s: &Arc<CtorS>| {
+            let mut sig = SignalsInfo::<SignalOnly>::new(&[S1, S2]).expect("new");
+            *s.handle.lock().unwrap() = Some(sig.handle());
+            sched::log("constructed", 0, 0);
+            let mut rounds = 0;
+            loop {
+                if sig.is_closed() {
+                    break;
+                }
+                sched::log("wait_call", 0, 0);
+                for x in sig.wait() {
+                    log_yield::<SignalOnly>(&x);
+                }
+                sched::log("wait_ret", 0, 0);
+                rounds += 1;
+                if rounds > 8 {
+                    sched::log("k_gave_up", 0, 0);
+                    break;
+                }
+            }
+            sched::log("k_done", 0, 0);
+        }),
+        nest_signals: vec![S1],
+        max_nest: 1,
+    };
+    let d = ThreadSpec {
+        name: "D1",
+        body: Box::new(move |_s: &Arc<CtorS>| {
+            sched::raise(S1);
+            sched::raise(S2);
+        }),
+        nest_signals: vec![],
+        max_nest: 0,
+    };
+    let x = ThreadSpec {
+        name: "X",
+        body: Box::new(move |s: &Arc<CtorS>| {
+            sched::await_quiescence();
+            let e = sched::exec();
+            let k_blocked = matches!(e.threads[1].pending, sched::Pending::BlockingRead(_));
+            if k_blocked {
+                if let Some(m) = unreported(&e.log, &[], false) {
+                    sched::fail(format!("{}: consumer is blocked with no wake-up outstanding although {}", prop, m));
+                }
+            }
+            sched::log("close_call", 0, 0);
+            if let Some(h) = s.handle.lock().unwrap().as_ref() {
+                h.close();
+            }
+            sched::log("close_ret", 0, 0);
+        }),
+        nest_signals: vec![],
+        max_nest: 0,
+    };
+    Scenario {
+        name: name.to_string(),
+        opts: Opts { stale_reads: false, stale_depth: 2, max_spurious: 0, horizon: 60_000, log_ops: false, log_handler_ops: true, reduce: true, no_discipline: false, nest_value_t1: 0, post_points: false, no_race_check: false, start_points: false, endurance: 0 },
+        signals: vec![S1, S2],
+        setup: Box::new(setup),
+        threads: vec![k, d, x],
+        finish: Box::new(move |s, e| {
+            drop(s);
+            if !e.panics.is_empty() {
+                return Err(format!("{}: thread panicked: {:?}", prop, e.panics));
+            }
+            if e.log.iter().any(|ev| ev.tag == "k_gave_up") {
+                return Err(format!("{}: consumer kept being woken without ever reaching quiescence (round horizon)", prop));
+            }
+            if let Some(m) = unreported(&e.log, &[], false) {
+                return Err(format!("{}: {}", prop, m));
+            }
+            let mut h: u64 = 0xcbf29ce484222325;
+            for ev in e.log.iter().filter(|ev| ev.tag == "yield" || ev.tag == "wait_ret") {
+                h ^= (ev.a + 1).wrapping_mul(0x9e3779b97f4a7c15);
+                h = h.wrapping_mul(0x100000001b3);
+            }
+            Ok(h)
+        }),
+        monitor: None,
+    }
 }
 
 /// The iterator-side scenario of C07: the per-signal channels of the info-carrying exfiltrators are
@@ -716,7 +829,19 @@ pub fn scenarios_c17(tier: Tier) -> Vec<Item> {
     p.initial = vec![S1];
     p.deliverers = vec![vec![S1, S1], vec![S1], vec![S1]];
     p.nest_on_k = vec![S1];
-    vec![item(build::<signal_hook::iterator::exfiltrator::origin::WithOrigin>(p), Some(if q { 1 } else { 2 }), "WithOrigin: deliveries of one signal whose handlers run on three threads at once (+ one nested in the consumer): every origin that comes out is that of a delivery")]
+    let mut v = vec![item(build::<signal_hook::iterator::exfiltrator::origin::WithOrigin>(p), Some(1), "WithOrigin: deliveries of one signal whose handlers run on three threads at once (+ one nested in the consumer): every origin that comes out is that of a delivery")];
+    let mut p = ip("origin_forever_burst7", "C17", Mode::Forever);
+    p.deliverers = vec![vec![S1, S1, S1, S1, S1, S1, S1]];
+    p.max_rounds = 12;
+    p.nest_on_k = vec![S1];
+    v.push(item(build::<signal_hook::iterator::exfiltrator::origin::WithOrigin>(p), Some(1), "WithOrigin: a burst of 7 deliveries (the per-signal buffer holds 5) + one more nested in the consumer at every boundary of its drain"));
+    if !q {
+        let mut p = ip("origin_wait_deliveries_on_two_threads", "C17", Mode::Wait);
+        p.initial = vec![S1];
+        p.deliverers = vec![vec![S1], vec![S1]];
+        v.push(item(build::<signal_hook::iterator::exfiltrator::origin::WithOrigin>(p), Some(2), "WithOrigin: handlers of one signal on two threads at once, deviation bound 2"));
+    }
+    v
 }
 
 pub fn scenarios(prop: &str, tier: Tier) -> Vec<Item> {
@@ -741,6 +866,13 @@ pub fn scenarios(prop: &str, tier: Tier) -> Vec<Item> {
             p.deliverers = vec![vec![S1], vec![S2]];
             p.adders = vec![S2];
             v.push(item(build::<SignalOnly>(p), b(1, 2), "add_signal(S2) from another thread vs deliveries of S1 and S2"));
+            if prop == "C10" {
+                let mut p = ip("origin_wait_timer_records", prop, Mode::Wait);
+                p.deliverers = vec![vec![S1, S1]];
+                p.timer_records = true;
+                v.push(item(build::<signal_hook::iterator::exfiltrator::origin::WithOrigin>(p), b(1, 2), "WithOrigin: deliveries whose records are of the timer kind (si_code SI_TIMER: no sender): the origin handed out says so"));
+            }
+            v.push(item(build_ctor("sigonly_constructed_under_deliveries", prop), b(1, 2), "the instance is constructed while its signals are being delivered (another thread + nested in the constructor): what its actions recorded is reported by the waits that follow"));
             let mut p = ip("raw_wait_two_threads_add_same_signal", prop, Mode::Wait);
             p.adders = vec![S2, S2];
             p.adders_first = true;
@@ -760,6 +892,13 @@ pub fn scenarios(prop: &str, tier: Tier) -> Vec<Item> {
             p.deliverers = vec![vec![S1, S1]];
             p.adders = vec![S1];
             v.push(item(build::<SignalOnly>(p), b(1, 2), "add_signal of an already watched signal (a no-op) from another thread vs its deliveries"));
+            let mut p = ip("raw_wait_readd_watched_after_refused_add", prop, Mode::Wait);
+            p.deliverers = vec![vec![S1, S1]];
+            p.adders = vec![S1];
+            p.adders_first = true;
+            p.match_values = true;
+            p.poison_in_setup = true;
+            v.push(item(build::<WithRawSiginfo>(p), b(1, 2), "re-adding a watched signal after an earlier addition was refused by panic (and survived): still one record per delivery"));
             let mut p = ip("raw_wait_readd_watched", prop, Mode::Wait);
             p.deliverers = vec![vec![S1, S1]];
             p.adders = vec![S1];
@@ -793,6 +932,16 @@ pub fn scenarios(prop: &str, tier: Tier) -> Vec<Item> {
                 p.closer_after_rejected_add = true;
                 v.push(item(build::<SignalOnly>(p), b(1, 3), "a handle clone makes an addition that is refused by panic (caught), then closes: the consumer is released, is_closed sticks"));
             }
+            let mut p = ip("close_wait_vs_add_of_new_signal", prop, Mode::Wait);
+            p.deliverers = vec![vec![S1]];
+            p.adders = vec![S2];
+            p.free_closers = 1;
+            v.push(item(build::<SignalOnly>(p), b(1, 3), "close() vs add_signal of a signal the instance does not watch yet, from another thread: closed stays closed, the consumer ends"));
+            let mut p = ip("close_wait_selfpipe_full", prop, Mode::Wait);
+            p.prefill = 400;
+            p.free_closers = 1;
+            p.max_rounds = 3;
+            v.push(item(build::<SignalOnly>(p), b(1, 2), "close() while the self-pipe is completely full (400 undrained deliveries): it returns and the consumer ends"));
             let mut p = ip("close_poll_callback_fails_once", prop, Mode::Poll);
             p.deliverers = vec![vec![S1]];
             p.free_closers = 1;
